@@ -119,3 +119,19 @@ func VerifC10ClientDeadline() {
 	}
 	verifrt.Reach("end")
 }
+
+// VerifC10ServerDeadline: P5 – the server arms the handshake deadline (read and write)
+// before the first read and removes exactly that deadline on success, so an established
+// connection is never killed by a stale handshake timer.
+func VerifC10ServerDeadline() {
+	verifrt.Ideal()
+	verifrt.SetClock(vNow)
+	padClasses()
+	_, _, sc, _ := vHonestExchange()
+	verifrt.Assert(len(sc.Deadlines) == 2, "one deadline armed, one cleared")
+	if len(sc.Deadlines) == 2 {
+		verifrt.Assert(sc.Deadlines[0].Kind == "all" && !sc.Deadlines[0].T.IsZero() && sc.Deadlines[0].Op < sc.ReadOps[0], "read+write deadline armed before the first read")
+		verifrt.Assert(sc.Deadlines[1].Kind == "all" && sc.Deadlines[1].T.IsZero() && sc.Deadlines[1].Op < sc.WriteOps[0], "the same (read+write) deadline is removed before the response is written")
+	}
+	verifrt.Reach("end")
+}
